@@ -6,14 +6,15 @@ Facts are triples (subject name, field, object name).  `kinds` maps a name to 'p
 from __future__ import annotations
 
 
-def closure(facts, kinds, taker):
+def closure(facts, kinds, taker, without_role_taker_rule=()):
+    """`without_role_taker_rule`: head_of facts for which the role-taker rule is left out (to describe a listed finding)"""
     F = set(facts)
     while True:
         new = set()
         for (s, f, o) in F:
             if f == "works_for":                     # WorksFor < MemberOf (same domain)
                 new.add((s, "member_of", o))
-            if f == "head_of":                       # HeadOf < WorksFor < MemberOf, super fields live on the role taker
+            if f == "head_of" and (s, f, o) not in without_role_taker_rule:   # HeadOf < WorksFor < MemberOf, super fields live on the role taker
                 new.add((taker[s], "works_for", o))
                 new.add((taker[s], "member_of", o))
             if f in ("member_of", "works_for", "head_of"):   # inverse Member (HeadOf/WorksFor inherit get_inverse)
